@@ -15,7 +15,7 @@ PARAMS = {  # property -> (quick: len, cuts), (thorough: len, cuts)
     "C02": ((4, 1), (5, 2)),
     "C04": ((4, 0), (5, 0)),
     "C06": ((4, 1), (5, 1)),
-    "C08": ((3, 1), (4, 1)),
+    "C08": ((4, 1), (5, 1)),
     "C09": ((3, 1), (4, 2)),
     "C10": ((2, 1), (3, 2)),
     "C11": ((3, 1), (4, 2)),
